@@ -231,6 +231,7 @@ fn apply_bstep(b: DefaultBuilder, s: &BStep) -> DefaultBuilder {
         BStep::Storage(m) => {
             let mut st = MockStorage::new();
             st.set(b"marker", &[*m, 1]);
+            st.set(b"doomed", b"removed by the init function");
             b.with_storage(st)
         }
         BStep::Block(h) => b.with_block(block_of(*h)),
@@ -265,12 +266,13 @@ fn build_and_probe(steps: &[BStep]) -> (u32, Vec<String>) {
         let who = api.addr_make("rich");
         sn.borrow_mut().push(format!("init saw api {}", who));
         storage.set(b"init", b"done");
+        storage.remove(b"doomed");
         router.bank.init_balance(storage, &who, vec![coin(1000, "coin")]).unwrap();
     });
     let mut t = seen.borrow().clone();
     t.push(format!("block {:?}", app.block_info()));
     t.push(format!("api {}", app.api().addr_make("x")));
-    t.push(format!("marker {:?} init {:?}", app.storage().get(b"marker"), app.storage().get(b"init")));
+    t.push(format!("marker {:?} init {:?} doomed {:?}", app.storage().get(b"marker"), app.storage().get(b"init"), app.storage().get(b"doomed")));
     let rich = app.api().addr_make("rich");
     let poor = app.api().addr_make("poor");
     let code = app.store_code(probe_contract());
@@ -336,7 +338,7 @@ fn check_builder(steps: &[BStep], viol: &mut Vec<Violation>, dig: &mut Fnv) {
         format!("init saw api {}", exp_api.addr_make("rich")),
         format!("block {:?}", exp_block),
         format!("api {}", exp_api.addr_make("x")),
-        format!("marker {:?} init {:?}", exp_marker, Some(b"done".to_vec())),
+        format!("marker {:?} init {:?} doomed {:?}", exp_marker, Some(b"done".to_vec()), None::<Vec<u8>>),
         "code 1".to_string(),
     ];
     for (i, w) in want.iter().enumerate() {
